@@ -277,6 +277,7 @@ struct Harness {
         const CBlockIndex* pi;
         { LOCK(cs_main); pi = sim.chainman().ActiveChain()[height]; }
         if (!pi) return true;
+        if (height == 0) return true; // genesis: not in the harness' block store, and txindex skips it by design
         switch (k) {
         case TXI: return Tx()->FindTx(sim.block_store.at(pi->GetBlockHash())->vtx[0]->GetHash()).has_value();
         case BFI: { BlockFilter f; return Bf()->LookupFilter(pi, f); }
